@@ -6,6 +6,8 @@ import StarsimModel.Model.ParsSim
 import StarsimModel.Generated.ParsSimLevel
 import StarsimModel.Model.ParsTime
 import StarsimModel.Generated.ParsTimePar
+import StarsimModel.Model.ParsModTime
+import StarsimModel.Generated.ParsModTime
 import StarsimModel.Model.Proto
 open StarsimModel StarsimModel.Pars StarsimModel.Proto StarsimModel.ParsRefs StarsimModel.ParsSim
 
@@ -228,6 +230,14 @@ def stepLine (d : RegData) (line : String) : RegData × String :=
       match parseTArgs? v u pu pd sd "0" with
       | some a => showTRes (StarsimModel.ParsTime.tpCtor Gen.tpCtorSteps tpEnv a)
       | none => "bad-op")
+  | ["modtime", u, dt, su, sdt] => (d,
+      let odt : Option (Option Rat) := if dt = "-" then some none else (parseRat? dt).map some
+      match odt, parseRat? sdt with
+      | some odt, some sdt =>
+          (match StarsimModel.ParsModTime.timeInit Gen.unitTable Gen.timeMismatchDt ⟨parseUVal su, sdt⟩ Gen.timeInitSteps ⟨parseUVal u, odt⟩ with
+           | .ok m => s!"ok {showUVal m.unit} {match m.dt with | some x => showRat x | none => "-"}"
+           | .err e => showTErr e)
+      | _, _ => "bad-op")
   | ["unitlookup", u] => (d,
       match StarsimModel.ParsTime.lookup Gen.unitTable (parseUVal u) with
       | some c => "ok " ++ showUVal c
